@@ -985,6 +985,9 @@ fn render_program(m: &Model, g: &mut Gen, hz: &str, mode: Mode) -> (Prog, Option
     if matches!(mode, Mode::Forms) && g.d.chance(130) {
         effect_section(m, g, &mut p);
     }
+    if matches!(mode, Mode::Forms) && g.d.chance(100) {
+        dyn_impl_section(m, g, &mut p);
+    }
     // the offending addition of a negative case
     let neg = match mode {
         Mode::NegDyn => neg_dyn(m, g),
@@ -1087,6 +1090,125 @@ fn effect_section(m: &Model, g: &mut Gen, p: &mut Prog) {
     p.prints.extend(calls);
     p.groups.push(json!({"gid": "fx", "kind": "effects", "lines": lines, "forms": []}));
     g.label("effects");
+}
+
+/// A second trait implemented *for a trait-object type* (`impl OutD for dyn Tr`), whose method
+/// calls a method of `Tr` on its receiver, next to an impl of the same trait for one of the
+/// concrete types that implement `Tr`: every call form on the trait object must run the
+/// `dyn Tr` impl (and through it the receiver's own `Tr` impl), every form on the concrete value
+/// the concrete impl.
+fn dyn_impl_section(m: &Model, g: &mut Gen, p: &mut Prog) {
+    let mut cands: Vec<(usize, usize)> = vec![];
+    for (vi, (rc, _)) in m.vals.iter().enumerate() {
+        if matches!(m.recvs[*rc].kind, RK::BoxOf(_)) {
+            continue;
+        }
+        for im in m.impls.iter().filter(|i| i.rc == *rc) {
+            cands.push((vi, im.tr));
+        }
+    }
+    if cands.is_empty() {
+        return;
+    }
+    let (_, tr) = cands[g.d.below(cands.len())];
+    let tname = m.trait_text(tr, false);
+    let tid = m.traits[tr].name.clone();
+    let mi = g.d.below(m.traits[tr].methods.len());
+    let inner = m.traits[tr].methods[mi].clone();
+    // the outer method is named like the inner one half of the time
+    let mut on = if g.d.bool() { inner.name.clone() } else { g.d.pick(METHOD_NAMES).to_string() };
+    if m.inhs.iter().any(|ih| ih.methods.iter().any(|(s, _)| s.name == on)) {
+        // an inherent method of the same name is the clash phase's subject
+        on = "od".to_string();
+    }
+    let inner_args: Vec<V> = inner.params.iter().map(|t| g.value(*t)).collect();
+    let ial: String = inner_args.iter().map(|a| format!(", {}", a.lit())).collect();
+    let inner_call = show_call(inner.ret, &format!("{tname}::{}(self{ial})", inner.name));
+    let mut decl = format!("trait OutD {{\n    fn {on}(Self, int32) -> string;\n}}\n\n");
+    decl.push_str(&format!(
+        "impl OutD for dyn {tname} {{\n    fn {on}(self: dyn {tname}, a0: int32) -> string {{\n        \"od<\" + {inner_call} + \">\" + int32_to_string(a0)\n    }}\n}}\n\n"
+    ));
+    // one concrete type that implements the inner trait also implements the outer one itself
+    let vals_of_tr: Vec<usize> = cands.iter().filter(|(_, t)| *t == tr).map(|(v, _)| *v).collect();
+    let plain_rc = if g.d.chance(150) { Some(m.vals[vals_of_tr[g.d.below(vals_of_tr.len())]].0) } else { None };
+    if let Some(rc) = plain_rc {
+        let ty = m.ty_text(rc, false);
+        decl.push_str(&format!(
+            "impl OutD for {ty} {{\n    fn {on}(self: {ty}, a0: int32) -> string {{\n        \"plain.r{rc}.\" + int32_to_string(a0)\n    }}\n}}\n\n"
+        ));
+        g.label("dyn-impl:with-concrete-impl");
+    }
+    p.decls.push_str(&decl);
+    p.helpers.insert("od_gm".into(), format!("fn od_gm[U: OutD](u: U, a0: int32) -> string {{ u.{on}(a0) }}"));
+    p.helpers.insert("od_gu".into(), format!("fn od_gu[U: OutD](u: U, a0: int32) -> string {{ OutD::{on}(u, a0) }}"));
+    p.helpers.insert("od_gg".into(), "fn od_gg[U: OutD](u: U, a0: int32) -> string { od_gm(u, a0) }".to_string());
+    p.helpers.insert("od_dp".into(), format!("fn od_dp(v: dyn OutD, a0: int32) -> string {{ OutD::{on}(v, a0) }}"));
+    p.helpers.insert("od_pass".into(), format!("fn od_pass(v: dyn {tname}, a0: int32) -> string {{ OutD::{on}(v, a0) }}"));
+    for &vi in &vals_of_tr {
+        let (rc, v) = &m.vals[vi];
+        let im = m.impl_of(tr, *rc).unwrap();
+        let inner_val = m.call(&im.bodies[mi], v, &inner_args).show();
+        let a0 = g.d.below(50) as i32;
+        let expect = format!("od<{inner_val}>{a0}");
+        let gid = format!("od{vi}.{tid}");
+        let ox = format!("ox{vi}_{tid}");
+        p.lets.push(format!("    let {ox}: dyn {tname} = x{vi};"));
+        let mut forms: Vec<String> = vec![];
+        let mut emit = |p: &mut Prog, form: &str, call: String| {
+            p.prints.push(format!("    string_println(\"{gid}.{form}=\" + {call});"));
+            forms.push(form.to_string());
+        };
+        emit(p, "ou", format!("OutD::{on}({ox}, {a0})"));
+        if g.d.chance(180) {
+            emit(p, "ogm", format!("od_gm({ox}, {a0})"));
+        }
+        if g.d.chance(180) {
+            emit(p, "ogu", format!("od_gu({ox}, {a0})"));
+        }
+        if g.d.chance(100) {
+            emit(p, "ogg", format!("od_gg({ox}, {a0})"));
+        }
+        if g.d.chance(130) {
+            // the concrete value coerced at the call, then the dyn-typed impl
+            emit(p, "opass", format!("od_pass(x{vi}, {a0})"));
+        }
+        if g.d.chance(110) {
+            let cv = format!("oc{vi}_{tid}");
+            p.lets.push(format!("    let {cv} = || OutD::{on}({ox}, {a0});"));
+            emit(p, "ocu", format!("{cv}()"));
+        }
+        if g.d.chance(90) {
+            let cv = format!("og{vi}_{tid}");
+            p.lets.push(format!("    let {cv} = |k: int32| od_gm({ox}, k);"));
+            emit(p, "ocg", format!("{cv}({a0})"));
+        }
+        for f in &forms {
+            g.label(&format!("form:{f}"));
+        }
+        p.groups.push(json!({"gid": gid, "expect": expect, "forms": forms, "kind": "trait"}));
+        if plain_rc == Some(*rc) {
+            let expect = format!("plain.r{rc}.{a0}");
+            let gid = format!("op{vi}.{tid}");
+            let mut forms: Vec<String> = vec![];
+            let mut emit = |p: &mut Prog, form: &str, call: String| {
+                p.prints.push(format!("    string_println(\"{gid}.{form}=\" + {call});"));
+                forms.push(form.to_string());
+            };
+            emit(p, "pu", format!("OutD::{on}(x{vi}, {a0})"));
+            emit(p, "pgm", format!("od_gm(x{vi}, {a0})"));
+            if g.d.bool() {
+                emit(p, "pgu", format!("od_gu(x{vi}, {a0})"));
+            }
+            if g.d.bool() {
+                emit(p, "pdp", format!("od_dp(x{vi}, {a0})"));
+            }
+            for f in &forms {
+                g.label(&format!("form:{f}"));
+            }
+            p.groups.push(json!({"gid": gid, "expect": expect, "forms": forms, "kind": "trait"}));
+        }
+    }
+    g.label("dyn-impl");
 }
 
 /// (kind, extra helper fns, extra main lines)
@@ -1371,7 +1493,7 @@ fn files_of(v: &Value) -> Vec<(String, String)> {
 fn nontrivial_groups(groups: &[Value]) -> bool {
     groups.iter().any(|g| {
         let forms: Vec<&str> = g["forms"].as_array().map(|a| a.iter().filter_map(|x| x.as_str()).collect()).unwrap_or_default();
-        forms.len() >= 3 && forms.iter().any(|f| matches!(*f, "gm" | "gu" | "gg" | "pr" | "h" | "h-ufcs" | "dp" | "dl" | "dd" | "dp-lit" | "ret" | "ret-dp" | "cu" | "cd"))
+        forms.len() >= 3 && forms.iter().any(|f| matches!(*f, "gm" | "gu" | "gg" | "pr" | "h" | "h-ufcs" | "dp" | "dl" | "dd" | "dp-lit" | "ret" | "ret-dp" | "cu" | "cd" | "ogm" | "ogu" | "ogg" | "ocu" | "ocg" | "opass" | "pgm" | "pdp"))
     })
 }
 
